@@ -65,22 +65,29 @@ def make_render_harness(template, label, convert=None, extra_assume=None, extra_
             extra_assume(h, vals)
         src = instantiate(h, template, vals)
         svg = S.SVG.fromstring(src)
-        if convert is None:
-            out_svg = svg.topicosvg()
-        else:
-            out_svg = convert(h, svg)
+        rec = None
+        if not h.symbolic:
+            rec = pipeline.SkiaCallRecorder()
+            rec.__enter__()
+        try:
+            if convert is None:
+                out_svg = svg.topicosvg()
+            else:
+                out_svg = convert(h, svg)
+        finally:
+            if rec is not None:
+                rec.__exit__()
         out = out_svg.tostring()
-        tol = None
+        tol = 0.1  # no viewBox: the documented absolute default
         vb = svg.view_box()
         if vb is not None:
-            tol = (vb.w if not h.symbolic else vb.w) * 0
-            m = min(vb.w, vb.h) if not h.symbolic else None
             if h.symbolic:
                 from sx.values import sym_min
 
-                m = sym_min(vb.w, vb.h)
-            tol = m * (F(1, 10) if h.symbolic else 0.1) / 100
-        pipeline.same_rendering(h, src, out, label, tolerance=tol)
+                tol = sym_min(vb.w, vb.h) * 0.1 / 100
+            else:
+                tol = min(vb.w, vb.h) * 0.1 / 100
+        pipeline.same_rendering(h, src, out, label, tolerance=tol, skia_calls=rec)
         if extra_check:
             extra_check(h, src, out, vals)
         return [out if not h.symbolic else len(out)]
@@ -92,6 +99,7 @@ PIPE_OPTS = {
     "snap_cut": True,
     "round_identity": True,  # rounding size is outside the rendering claims (C01/C07 decide rounding)
     "assume_positive_area": True,
+    "axioms": ("pythagoras",),  # sin^2+cos^2=1: a rotation is never singular
 }
 
 
@@ -122,3 +130,41 @@ PIPE_OUTSIDE = [
     "zero-area shapes (areas assumed positive here; pruning is C18)",
     "structures deeper/wider than the template families",
 ]
+
+
+def replay_render(harness, failure, variants=()):
+    """Replay a rendering witness on the real package.  The solver chooses the
+    coverage pattern of the sample point freely (Boolean atoms), so the model's
+    geometry need not realise it; if the model does not reproduce, retry with the
+    model's non-geometric values (opacities, widths, transforms) on geometry in
+    which all shapes overlap."""
+    exc = (ValueError, ZeroDivisionError, AssertionError)
+    rep = replay_concrete(harness, failure, allowed_exceptions=exc)
+    if rep.get("reproduced"):
+        return rep
+    for geom in variants:
+        inp = dict(failure["inputs"])
+        inp.update({k: str(v) for k, v in geom.items()})
+        f2 = dict(failure)
+        f2["inputs"] = inp
+        r2 = replay_concrete(harness, f2, allowed_exceptions=exc)
+        if r2.get("reproduced"):
+            r2["detail"] = "battery geometry: " + r2["detail"]
+            return r2
+    for variant in (0, 1):
+        inp = dict(failure["inputs"])
+        for k in list(inp):
+            if re.fullmatch(r"[xy]\d*", k) or re.fullmatch(r"[uv][xy]", k):
+                inp[k] = "0" if variant == 0 else "1"
+            elif re.fullmatch(r"[wh]\d+", k):
+                inp[k] = "10"
+            elif re.fullmatch(r"p[xy]\d", k):
+                i = int(k[2])
+                inp[k] = str({("x", 1): 0, ("y", 1): 0, ("x", 2): 12, ("y", 2): 0, ("x", 3): 0, ("y", 3): 12}[(k[1], i)])
+        f2 = dict(failure)
+        f2["inputs"] = inp
+        r2 = replay_concrete(harness, f2, allowed_exceptions=exc)
+        if r2.get("reproduced"):
+            r2["detail"] = "overlapping geometry variant: " + r2["detail"]
+            return r2
+    return rep
